@@ -7,7 +7,8 @@ QoS 2 PUBLISH with packet identifier `id`.
 
 * `C07_handled_changes` — every way the set `qos2_publish_handled` changes in one API call
   (`Q2Step`): inserted only together with the one notification of that PUBLISH; deleted only by a
-  received PUBREL, a sent failing PUBREC (v5.0), a new session, a non-persistent close, or
+  received PUBREL, a sent failing PUBREC (v5.0), a new session (including the one started by a
+  CONNACK sent with session present = false), a non-persistent close, or
   `restore_qos2_publish_handled`.
 * `C07_at_most_once` — for every operation sequence without a deleting step for `id`, at most
   one notification for `id` (hence: between two consecutive deleting steps at most one).
@@ -65,6 +66,10 @@ inductive Q2Step (cfg : Cfg) (s : St) (op : Op) : Prop
   /-- CONNECT with clean start / clean session sent -/
   | connectCleanSent (p : Pkt) : op = .send p → recvs (step cfg s op).ev = [] → p.kind = .connect →
       p.clean = true → (step cfg s op).s.handled = [] → Q2Step cfg s op
+  /-- new session started by the CONNACK we sent (fix 10ee029): CONNACK(success) with
+      session present = false accepted for sending — the send-side twin of `newSessRecv` -/
+  | connackNoSessionSent (p : Pkt) : op = .send p → recvs (step cfg s op).ev = [] → p.kind = .connack →
+      p.rc = some 0 → p.sp = false → (step cfg s op).s.handled = [] → Q2Step cfg s op
   /-- `notify_closed` of a non-persistent session -/
   | closedNonPersistent : op = .closed → s.needStore = false → recvs (step cfg s op).ev = [] →
       (step cfg s op).s.handled = [] → Q2Step cfg s op
@@ -85,10 +90,11 @@ theorem mem_foldl_ins (ids acc : List Nat) (x : Nat) :
 theorem C07_handled_changes (cfg : Cfg) (s : St) (op : Op) (hwf : OpWf op) : Q2Step cfg s op := by
   cases op with
   | send p =>
-    rcases send_handled { cfg := cfg, s := s } p with h | ⟨h, hk, hc⟩ | ⟨h, hk, hv, hrc, hs⟩
+    rcases send_handled { cfg := cfg, s := s } p with h | ⟨h, hk, hc⟩ | ⟨h, hk, hv, hrc, hs⟩ | ⟨h, hk, hrc, hsp⟩
     · exact .quiet (by simp [step]) h
     · exact .connectCleanSent p rfl (by simp [step]) hk hc h
     · exact .pubrecFailSent p rfl (by simp [step]) hk hv hrc hs h
+    · exact .connackNoSessionSent p rfl (by simp [step]) hk hrc hsp h
   | recv inp parse =>
     obtain ⟨v, fh, d, h⟩ := recv_sum { cfg := cfg, s := s } inp parse (fun v fh d p hp => (hwf v fh d p hp).2)
     have hk : ∀ p, parse v fh d = .ok p → p.kind.nibble = fh / 16 := fun p hp => (hwf v fh d p hp).1
@@ -155,12 +161,13 @@ theorem C07_insert_only_by_notification (cfg : Cfg) (s : St) (op : Op) (hwf : Op
   | newSessRecv p a n b => simp [b] at h1
   | pubrecFailSent p e a k v rc hs b => rw [b, mem_del] at h1; exact absurd h1.1 h0
   | connectCleanSent p e a k c b => simp [b] at h1
+  | connackNoSessionSent p e a k rc sp b => simp [b] at h1
   | closedNonPersistent e n a b => simp [b] at h1
   | restored ids e a b => exact .inr ⟨ids, e, (b id).1 h1⟩
 
 /-- `id` leaves `handled` only by: PUBREL(id) received; a failing PUBREC(id) sent (v5.0); a new
-    session (CONNECT clean sent / received, CONNACK without session received); a non-persistent
-    close; `restore_qos2_publish_handled` with a list not containing it. -/
+    session (CONNECT clean sent / received, CONNACK without session received / sent); a
+    non-persistent close; `restore_qos2_publish_handled` with a list not containing it. -/
 theorem C07_delete_causes (cfg : Cfg) (s : St) (op : Op) (hwf : OpWf op) (id : Nat)
     (h : Deletes cfg id s op) :
     (∃ p, recvs (step cfg s op).ev = [p] ∧ p.kind = .pubrel ∧ p.pid.getD 0 = id) ∨
@@ -169,7 +176,9 @@ theorem C07_delete_causes (cfg : Cfg) (s : St) (op : Op) (hwf : OpWf op) (id : N
     (∃ p, recvs (step cfg s op).ev = [p] ∧ NewSessionPkt p) ∨
     (∃ p, op = .send p ∧ p.kind = .connect ∧ p.clean = true) ∨
     (op = .closed ∧ s.needStore = false) ∨
-    (∃ ids, op = .restoreHandled ids ∧ id ∉ ids) := by
+    (∃ ids, op = .restoreHandled ids ∧ id ∉ ids) ∨
+    -- new session started by the CONNACK we sent (fix 10ee029)
+    (∃ p, op = .send p ∧ p.kind = .connack ∧ p.rc = some 0 ∧ p.sp = false) := by
   obtain ⟨h0, h1⟩ := h
   cases C07_handled_changes cfg s op hwf with
   | quiet a b => rw [b] at h1; exact absurd h0 h1
@@ -184,7 +193,8 @@ theorem C07_delete_causes (cfg : Cfg) (s : St) (op : Op) (hwf : OpWf op) (id : N
     exact .inr (.inl ⟨p, e, k, v, by grind, rc, hs⟩)
   | connectCleanSent p e a k c b => exact .inr (.inr (.inr (.inl ⟨p, e, k, c⟩)))
   | closedNonPersistent e n a b => exact .inr (.inr (.inr (.inr (.inl ⟨e, n⟩))))
-  | restored ids e a b => exact .inr (.inr (.inr (.inr (.inr ⟨ids, e, fun hm => h1 ((b id).2 hm)⟩))))
+  | restored ids e a b => exact .inr (.inr (.inr (.inr (.inr (.inl ⟨ids, e, fun hm => h1 ((b id).2 hm)⟩)))))
+  | connackNoSessionSent p e a k rc sp b => exact .inr (.inr (.inr (.inr (.inr (.inr ⟨p, e, k, rc, sp⟩)))))
 
 /-- per call: at most one notification for `id`, and only when `id` was not handled; afterwards
     it is. -/
@@ -214,6 +224,7 @@ theorem C07_step_notified (cfg : Cfg) (s : St) (op : Op) (hwf : OpWf op) (id : N
     simp [a, this]
   | pubrecFailSent p e a k v rc hs b => simp [a]
   | connectCleanSent p e a k c b => simp [a]
+  | connackNoSessionSent p e a k rc sp b => simp [a]
   | closedNonPersistent e n a b => simp [a]
   | restored ids e a b => simp [a]
 
@@ -557,6 +568,9 @@ example := C07_release_by_failing_pubrec cfg (s5 [7]) { ver := 5, kind := .pubre
   0x80 rfl rfl rfl rfl (by decide) (by decide) rfl
 example := C07_release_by_new_session cfg { s4 [7] with status := .disconnected }
   { ver := 4, kind := .connect, clean := true } rfl rfl (by decide) rfl rfl (.inl rfl)
+-- a CONNACK(success, session present = false) accepted for sending starts a new session
+example : Deletes { role := .server, pw := 2 } 7 { s4 [7] with status := .connecting }
+    (.send { ver := 4, kind := .connack, size := 4, rc := some 0, sp := false }) := by unfold Deletes; decide
 example := C07_survives_resume cfg (s4 [7]) rfl
 example : (step cfg (s4 [7]) .closed).s.handled = [7] := by decide
 
